@@ -1,5 +1,6 @@
-(* C18 — safe for concurrent use. Property theorems only (Props format).
-   To be included from Props/C18.v by the integrator. *)
+(* C18 — safe for concurrent use. Property theorems only.
+   Model: Contract/CtrConcurrency.v (threads, private stores, one shared store, arbitrary
+   schedules); facts: Gen/Facts_gen.v checked in Contract/CtrProofsFacts.v. *)
 From Coq Require Import String List Bool Arith.
 Import ListNotations.
 From V Require Import Common.Base Contract.CtrConcurrency Contract.CtrProofsConc
@@ -61,20 +62,34 @@ Theorem C18_facts_static_obligation : pkg_level_ok = true /\ codec_receiver_ok =
 Proof. exact facts_static_obligation. Qed.
 Print Assumptions C18_facts_static_obligation.
 
-(* The full obligation of DESIGN.md (adds: shared parameter objects are written only under an
-   "already valid => no write" guard) does NOT hold on the unchanged repository: FINDINGS.
-   What holds, and the exact exceptions: *)
-Theorem C18_facts_ok_partial :
-  pkg_level_ok = true /\ imports_ok = true /\ nondet_ok = true /\ codec_receiver_ok = true /\
-  codec_shared_stores = [] /\ param_store_violations = [] /\ codec_shared_calls_bad = [] /\
-  getparameter_writes = [] /\
-  (forall v, In v validate_unguarded_writes ->
-     fst (fst v) = "jpeg2000/htj2k"%string /\ snd (fst v) = "Parameters_go"%string) /\
-  (forall v, In v codec_iface_calls_bad ->
-     v = ("jpegls/nearlossless", "Decode", "iface.SetParameter")%string).
-Proof. exact facts_ok_partial. Qed.
-Print Assumptions C18_facts_ok_partial.
+(* The full obligation of DESIGN.md: additionally no unsafe/reflect/cgo/time/math-rand import,
+   only inspected map iterations, and parameter objects are written only under an "already
+   valid / already holds the value => no write" guard:
+   - codec methods never store a field of a parameters object that may be the caller's;
+   - on such an object they only call Validate and GetParameter (and, through the interface,
+     GetParameter) — with ONE inspected exception: Decode of jpegls/nearlossless writes the NEAR
+     value of the stream back with SetParameter, but only when GetParameter("near") is not
+     already that value (finding F24, repaired: it used to write on every frame).
+     DOCUMENTED LIMIT: with one shared parameters object and streams whose NEAR differs from
+     the value stored in it, that write still happens and concurrent Decode calls race on it;
+     with streams coded with those parameters (what a Transcoder does; what the stress run
+     does) it never happens;
+   - every assignment in every Validate is conditional (finding F23, repaired: Validate of
+     htj2k . Parameters assigned BlockWidth/BlockHeight unconditionally). *)
+Theorem C18_facts_ok : facts_ok_full = true.
+Proof. exact facts_ok. Qed.
+Print Assumptions C18_facts_ok.
 
-Theorem C18_facts_ok_refuted : facts_ok_full = false.
-Proof. exact facts_ok_refuted. Qed.
-Print Assumptions C18_facts_ok_refuted.
+Theorem C18_facts_params_obligation :
+  codec_shared_stores = [] /\ param_store_violations = [] /\ codec_shared_calls_bad = [] /\
+  codec_iface_calls_bad = [] /\ getparameter_writes = [] /\ validate_unguarded_writes = [].
+Proof. exact facts_params_obligation. Qed.
+Print Assumptions C18_facts_params_obligation.
+
+(* the one allowed write-back has the guarded shape the allow-list entry claims *)
+Theorem C18_nearlossless_writeback_guarded :
+  length nearlossless_decode_events = 1%nat /\
+  forallb (fun evs => mem "iface.SetParameter" (ev_names "I" evs) && set_guarded None evs)
+          nearlossless_decode_events = true.
+Proof. exact nearlossless_writeback_guarded. Qed.
+Print Assumptions C18_nearlossless_writeback_guarded.
